@@ -78,6 +78,13 @@ class _Draws:
         # a fresh draw from a finite range: every value is feasible by construction, so the fork needs
         # no solver query; the chosen value is still recorded as input rng<k> for counterexamples
         vals = list(range(lo, hi_incl + 1))
+        pa = self.split.get("_pin_after")
+        if pa is not None and self.n - 1 >= pa[0]:
+            # this instance explores only the executions that agree with one seeded continuation after the first pa[0] draws
+            # (large grids: the full decision tree is out of reach; the draws are still recorded as inputs)
+            import zlib as _z
+
+            vals = [vals[_z.crc32(f"{pa[1]}:{name}".encode()) % len(vals)]]
         if name in self.split and self.split[name][0] in ("eq", "notin"):
             kind_, val = self.split[name]
             vals = [v for v in vals if (v == val if kind_ == "eq" else v not in val)]
